@@ -887,6 +887,15 @@ CURATED_WITH_FLAT = [
     ("{[#P].[#Q]}.{#P=[#a][#b],#Q=[#c][#d]}.{#a=CC[$],#b=[$]O,#c=NC[$],#d=[$]CF}", "{[#a][#b].[#c][#d]}.{#a=CC[$],#b=[$]O,#c=NC[$],#d=[$]CF}", True),
     ("{[#P][#R].[#Q]}.{#P=[#a][#b][>],#R=[<][#e],#Q=[#c]=[#d]}.{#a=[#a1][#a2][$],#b=[$][#b1][>],#e=[<][#e1],#c=[#c1][>],#d=[<][#d1][#d2]}",
      "{[#a][#b][#e].[#c]=[#d]}.{#a=[#a1][#a2][$],#b=[$][#b1][>],#e=[<][#e1],#c=[#c1][>],#d=[<][#d1][#d2]}", False),
+    # intermediate definitions whose descriptors admit more than one pairing: the pairs are taken in the order the
+    # descriptors and nodes are written, which makes the assignment unique (a bead with two kinds facing a bead that
+    # offers both partners; a three-bead block facing a two-bead block)
+    ("{[#K]([#L][#N])[#M]}.{#K=[>][$][#k],#L=[<][$][#l],#M=[$][#m],#N=[$][#n]}.{#k=[$x]C[$y],#l=[$x]N[$z],#m=[$y]CC,#n=[$z]O}",
+     "{[#k]([#l][#n])[#m]}.{#k=[$x]C[$y],#l=[$x]N[$z],#m=[$y]CC,#n=[$z]O}", True),
+    ("{[#K]([#L][#N])[#M]}.{#K=[>][$][#k],#L=[<][$][#l],#M=[$][#m],#N=[$][#n]}.{#k=[$x][#k1][#k2][$y],#l=[$x][#l1][$z],#m=[$y][#m1],#n=[$z][#n1][#n2]}",
+     "{[#k]([#l][#n])[#m]}.{#k=[$x][#k1][#k2][$y],#l=[$x][#l1][$z],#m=[$y][#m1],#n=[$z][#n1][#n2]}", False),
+    ("{[#U]([#V])[#T]}.{#U=[#p][>][#q][$][#r][$k],#V=[$][#c][#d][<],#T=[$][#t]}.{#p=[$pq]C[$pd],#q=[$pq]N([$qr])[$qt],#r=[$qr]O,#c=[$cd]S,#d=[$cd]C[$pd],#t=[$qt]F}",
+     "{[#p]([#d][#c])[#q]([#t])[#r]}.{#p=[$pq]C[$pd],#q=[$pq]N([$qr])[$qt],#r=[$qr]O,#c=[$cd]S,#d=[$cd]C[$pd],#t=[$qt]F}", True),
 ]
 
 
